@@ -28,6 +28,35 @@ fn main() {
     let seed: u64 = arg_val(&args, "--seed").and_then(|s| s.parse().ok()).unwrap_or(0);
     let lane = arg_val(&args, "--lane").unwrap_or_else(|| "rel".into());
     match args[1].as_str() {
+        "genstats" => {
+            // generator diagnostics: top reject reasons of the full-grammar profile
+            let n: u64 = arg_val(&args, "--n").and_then(|s| s.parse().ok()).unwrap_or(2000);
+            let mut reasons: std::collections::BTreeMap<String, (u64, String)> = Default::default();
+            let mut ok = 0;
+            let p = if args.iter().any(|a| a == "--nonlatching") { gen::Profile::non_latching() } else { gen::Profile::full() };
+            for i in 0..n {
+                let mut rng = crate::core::rng::Rng::for_case(seed, "genstats", "case", i);
+                let g = gen::generate(&mut rng, &p);
+                match crate::core::sim::Sim::new(&g.text) {
+                    Ok(_) => ok += 1,
+                    Err(e) => {
+                        let line = e.lines().find(|l| l.contains("help:") ).or_else(|| e.lines().nth(1)).unwrap_or("").trim().to_string();
+                        let key: String = line.chars().filter(|c| !c.is_ascii_digit()).take(100).collect();
+                        let ent = reasons.entry(key).or_insert((0, g.text.clone()));
+                        ent.0 += 1;
+                    }
+                }
+            }
+            println!("accepted {ok}/{n}");
+            let mut v: Vec<_> = reasons.into_iter().collect();
+            v.sort_by_key(|x| std::cmp::Reverse(x.1 .0));
+            for (k, (c, ex)) in v.iter().take(25) {
+                println!("{c:5}  {k}");
+                if args.iter().any(|a| a == "--examples") {
+                    println!("{ex}\n");
+                }
+            }
+        }
         "list" => {
             for c in checks::all() {
                 println!("{}", c.id());
